@@ -184,6 +184,36 @@ def extract(repo):
     if not m:
         raise ValueError("exp2cxx: emitted aggregate member read changed")
     f["genSelectAggr"] = m.group(1) == "addFileId"
+    # ---- state a reader could carry from one reference to the next (or from one file to the next): `static` locals in the
+    # functions of the reference-reading path, and file-scope mutable statics of their source files that these functions use
+    path_fns = [(attr, "STEPattribute.cc", "Severity STEPattribute::STEPread( istream & in, InstMgrBase * instances, int addFileId,"),
+                (inst, "sdaiApplication_instance.cc", "SDAI_Application_instance * ReadEntityRef( istream & in, ErrorDescriptor * err, const char * tokenList,"),
+                (inst, "sdaiApplication_instance.cc", "Severity SDAI_Application_instance::STEPread( int id,  int idIncr,"),
+                (agge, "STEPaggrEntity.cc", "Severity EntityAggregate::ReadValue("),
+                (agge, "STEPaggrEntity.cc", "Severity EntityNode::STEPread( istream & in, ErrorDescriptor * err,"),
+                (aggs, "STEPaggrSelect.cc", "Severity SelectAggregate::ReadValue("),
+                (sel, "sdaiSelect.cc", "Severity SDAI_Select::STEPread( istream & in, ErrorDescriptor * err,"),
+                (cx, "STEPcomplex.cc", "Severity STEPcomplex::STEPread( int id, int addFileId, class InstMgrBase * instance_set,")]
+    state = []
+
+    def file_statics(text):
+        out, depth, k = [], 0, 0
+        for m in re.finditer(r"[{}]|^static\s+(?!const\b)(?!inline\b)[\w:<>\s\*&]+?\b(\w+)\s*(?:=[^;]*)?;", text, re.M):
+            if m.group(0) == "{":
+                depth += 1
+            elif m.group(0) == "}":
+                depth -= 1
+            elif depth == 0 and m.group(1):
+                out.append(m.group(1))
+        return out
+    for text, fname, sig in path_fns:
+        body_ = _body(text, sig)
+        fn = re.search(r"(\w+(?:::\w+)?)\s*\($", sig[:sig.index("(") + 1]).group(1)
+        for m in re.finditer(r"\bstatic\s+(?!const\b)[\w:<>\s\*&]+?\b(\w+)\s*(?:=[^;]*)?;", body_):
+            state.append(f"{fn}::{m.group(1)}")
+        for v in file_statics(text):
+            if re.search(r"\b" + re.escape(v) + r"\b", body_):
+                state.append(f"{fname}:{v} (used by {fn})")
     order = ["instAttr", "attrRef", "attrAggr", "attrSelect", "redef", "aggrEntityElem", "aggrSelectElem", "selectContent",
              "selectRef", "complexPart", "refAdd", "genSelectRef", "genSelectNested", "genSelectAggr"]
     L = ["-- GENERATED by tools/extract.d/threading.py from STEPattribute.cc, sdaiApplication_instance.cc, STEPaggrEntity.cc,",
@@ -192,5 +222,8 @@ def extract(repo):
          "/-- at which call sites the file id increment is handed on (see tools/extract.d/threading.py for the sites) -/",
          "structure Threading where"] + [f"  {k} : Bool" for k in order] + ["  deriving DecidableEq, Repr", "",
          "def threading : Threading :=", "  { " + ", ".join(f"{k} := {'true' if f[k] else 'false'}" for k in order) + " }", "",
+         "/-- variables through which a reader of the reference path could carry state from one reference (or file) to the next:",
+         "    non-const `static` locals of its functions and file-scope statics they use -/",
+         "def readerState : List String := [" + ", ".join('"' + x + '"' for x in sorted(set(state))) + "]", "",
          "end StepModel.Generated", ""]
     return {"ThreadingGen.lean": "\n".join(L)}
